@@ -100,6 +100,9 @@ def raw_apps(iface):
                         import sys
                         start_response("500 Internal Server Error", [("content-type", "text/plain"), ("x-second", "1")], sys.exc_info())
                     return [b"error page"]
+                if shape == "no_headers":  # legal: a response without a single header (a bare 204)
+                    start_response("204 No Content", [])
+                    return [b""]
                 if shape == "cookie_ws":  # hand-built lines with optional whitespace at either end, a trailing "; ", inner runs of blanks
                     start_response("200 OK", [("content-type", "text/plain"), ("set-cookie", "theme=dark; Path=/; "), ("set-cookie", " sid=1"), ("set-cookie", "k=v "), ("x-sp", " padded  value "), ("x-sp", "two  blanks")])
                     return [b"hello"]
@@ -170,7 +173,7 @@ def raw_apps(iface):
             app.calls = 0
             app.closed = 0
             return app
-        return {s: (lambda s=s: mk(s)) for s in ("list", "list_caps", "cookie_ws", "restart_exc_info", "list2", "tuple", "empty", "empty_iter", "gen", "closeable", "raise_before", "raise_after_start", "raise_after_chunk", "empty_then_raise", "empty_then_body", "sees_environ", "sees_falsy", "gen_raise_before_start", "typeerror_before", "attributeerror_before")}
+        return {s: (lambda s=s: mk(s)) for s in ("list", "no_headers", "list_caps", "cookie_ws", "restart_exc_info", "list2", "tuple", "empty", "empty_iter", "gen", "closeable", "raise_before", "raise_after_start", "raise_after_chunk", "empty_then_raise", "empty_then_body", "sees_environ", "sees_falsy", "gen_raise_before_start", "typeerror_before", "attributeerror_before")}
 
     def amk(shape):
         async def app(scope, receive, send):
@@ -179,6 +182,10 @@ def raw_apps(iface):
                 raise Boom("before")
             if shape in ("typeerror_before", "attributeerror_before"):
                 raise (TypeError if shape == "typeerror_before" else AttributeError)("the application's own bug")
+            if shape == "no_headers":
+                await send({"type": "http.response.start", "status": 204, "headers": []})
+                await send({"type": "http.response.body", "body": b""})
+                return
             hdrs = [(b"content-type", b"text/plain"), (b"set-cookie", b"a=1"), (b"set-cookie", b"b=Jos\xe9"), (b"x-multi", b"1"), (b"x-multi", b"2")]
             if shape == "utf8_headers":  # header bytes that happen to be valid UTF-8 must come out as the same bytes
                 hdrs += [(b"x-utf8", b"r\xc3\xa9sum\xc3\xa9"), (b"set-cookie", b"u=\xc3\xa9"), (b"content-disposition", b'attachment; filename="\xe4\xb8\xad.txt"'), (b"x-sp", b" padded  value ")]
@@ -211,7 +218,7 @@ def raw_apps(iface):
         app.calls = 0
         app.closed = 0
         return app
-    return {s: (lambda s=s: amk(s)) for s in ("one", "two", "three", "nobody", "one_nokey", "two_nokey", "sees_scope", "utf8_headers", "mixed_sizes", "headers_iter", "raise_before", "raise_after_start", "raise_after_chunk", "typeerror_before", "attributeerror_before")}
+    return {s: (lambda s=s: amk(s)) for s in ("one", "no_headers", "two", "three", "nobody", "one_nokey", "two_nokey", "sees_scope", "utf8_headers", "mixed_sizes", "headers_iter", "raise_before", "raise_after_start", "raise_after_chunk", "typeerror_before", "attributeerror_before")}
 
 
 # ------------------------------------------------------------------ wrappers
@@ -313,7 +320,7 @@ def requests_menu():
     return [("GET", [], []), ("HEAD", [], []), ("POST", [("Content-Type", "text/plain"), ("Content-Length", "4")], [b"bo", b"dy"]), ("GET", [("Range", "bytes=1-2")], []), ("GET", [("X-Ext", "1")], []), ("GET", [("X-Empty", ""), ("X-Zero", "0")], [])]
 
 
-def run(iface, app, method, headers, chunks):
+def run(iface, app, method, headers, chunks, executor_order="inline"):
     req = SV.AReq(method=method, headers=headers, chunks=chunks)
     random.seed(7)
     if iface == "wsgi":
@@ -324,7 +331,7 @@ def run(iface, app, method, headers, chunks):
         return SV.run_wsgi(app, env)
     # informational / capability extensions a server announces (no zero-copy here: C02 covers that one)
     ext = {"tls": {"tls_version": 772}, "http.response.push": {}, "x.custom": {"k": 1}} if ("X-Ext", "1") in headers else None
-    return SV.run_asgi(app, SV.to_scope(req, extensions=ext) if ext else SV.to_scope(req), SV.to_messages(req))
+    return SV.run_asgi(app, SV.to_scope(req, extensions=ext) if ext else SV.to_scope(req), SV.to_messages(req), executor_order=executor_order)
 
 
 def norm_headers(res, drop=()):
@@ -481,6 +488,13 @@ def run_shard(desc, tier):
                 edited = "E" in stack
                 bh, bc = norm_headers(bare, drop=("x-edited",))
                 gh, gc = norm_headers(res, drop=("x-edited",))
+                if iface == "asgi" and len(stack) <= 2:
+                    # the same again with a thread pool that runs what it is handed in one turn of the loop last-in-first-out
+                    app2, _ = build(iface, name, stack, tmpfile)
+                    res2 = run(iface, app2, method, headers, chunks, executor_order="reverse")
+                    if (res2.status, res2.body, type(res2.exc).__name__ if res2.exc else None) != (res.status, res.body, None):
+                        r.violation("pool-order-dependent", w, f"{where}: with a thread pool that runs the jobs of one loop turn in reverse order the client gets status {res2.status} body {res2.body[:60]!r} ({res2.exc!r:.60}), otherwise {res.status} {res.body[:60]!r}")
+                        continue
                 if res.status != bare.status:
                     r.violation("status-differs", w, f"{where}: status {res.status} vs bare {bare.status}")
                 elif res.body != bare.body:
